@@ -65,11 +65,11 @@ func fieldLoad(v ssa.Value) (ssa.Value, *types.Var) {
 	case *ssa.UnOp:
 		if x.Op == token.MUL {
 			if fa, ok := x.X.(*ssa.FieldAddr); ok {
-				return fa.X, fieldOfAddr(fa)
+				return stripPhi(fa.X), fieldOfAddr(fa)
 			}
 		}
 	case *ssa.Field:
-		return x.X, fieldOfAddr(x)
+		return stripPhi(x.X), fieldOfAddr(x)
 	}
 	return nil, nil
 }
@@ -274,4 +274,181 @@ func keccakChain(v ssa.Value) (int, ssa.Value) {
 		}
 	}
 	return depth, v
+}
+
+// stripPhi resolves a phi that has a single meaning at its uses (facts.ThreadedValue: the merge of
+// an inlined helper's results, or a get-or-create of a map entry); other values are returned as is.
+func stripPhi(v ssa.Value) ssa.Value {
+	if ph, ok := v.(*ssa.Phi); ok {
+		return facts.ThreadedValue(ph)
+	}
+	return v
+}
+
+// wholeCopyOf: the struct in allocation a is initialised by one whole-struct copy `*a = *P`
+// (`x := *p`) that precedes every field store into a; returns P, or nil.
+func wholeCopyOf(a *ssa.Alloc) ssa.Value {
+	if a.Referrers() == nil {
+		return nil
+	}
+	var copySt *ssa.Store
+	n := 0
+	for _, r := range *a.Referrers() {
+		if st, ok := r.(*ssa.Store); ok && st.Addr == ssa.Value(a) {
+			copySt = st
+			n++
+		}
+	}
+	if n != 1 {
+		return nil
+	}
+	ld, ok := copySt.Val.(*ssa.UnOp)
+	if !ok || ld.Op != token.MUL {
+		return nil
+	}
+	// every field store comes after the copy
+	for _, r := range *a.Referrers() {
+		fa, ok := r.(*ssa.FieldAddr)
+		if !ok || fa.Referrers() == nil {
+			continue
+		}
+		for _, rr := range *fa.Referrers() {
+			st, ok := rr.(*ssa.Store)
+			if !ok || st.Addr != ssa.Value(fa) {
+				continue
+			}
+			if st.Block() == copySt.Block() {
+				if instrIndexOf(st) < instrIndexOf(copySt) {
+					return nil
+				}
+			} else if !copySt.Block().Dominates(st.Block()) {
+				return nil
+			}
+		}
+	}
+	return ld.X
+}
+
+// appendsInto lists the append calls that contribute elements to slice value v (through phis and
+// re-slicing); nil when v is fed by anything other than appends onto an empty or nil slice.
+func appendsInto(v ssa.Value) []*ssa.Call {
+	var out []*ssa.Call
+	okAll := true
+	seen := map[ssa.Value]bool{}
+	var walk func(x ssa.Value)
+	walk = func(x ssa.Value) {
+		if x == nil || seen[x] {
+			return
+		}
+		seen[x] = true
+		switch y := x.(type) {
+		case *ssa.Phi:
+			for _, e := range y.Edges {
+				walk(e)
+			}
+		case *ssa.Call:
+			if b, ok := y.Call.Value.(*ssa.Builtin); ok && b.Name() == "append" && len(y.Call.Args) == 2 {
+				out = append(out, y)
+				walk(y.Call.Args[0])
+				return
+			}
+			okAll = false
+		case *ssa.Const:
+			if y.Value != nil {
+				okAll = false
+			}
+		case *ssa.MakeSlice:
+			if k, isK := constInt(y.Len); !isK || k != 0 {
+				okAll = false
+			}
+		case *ssa.Slice:
+			walk(y.X)
+		case *ssa.Alloc:
+			// an empty array literal sliced: []T{}
+		default:
+			okAll = false
+		}
+	}
+	walk(v)
+	if !okAll {
+		return nil
+	}
+	return out
+}
+
+// valueLeaves resolves v to the set of values it can stand for, looking through phis, results of
+// calls to local function literals (each return statement's operand) and loads of captured
+// variables (every value stored to the cell, in the enclosing function or any of its literals).
+func valueLeaves(v ssa.Value) []ssa.Value {
+	var out []ssa.Value
+	seen := map[ssa.Value]bool{}
+	var walk func(x ssa.Value, d int)
+	walk = func(x ssa.Value, d int) {
+		if x == nil || seen[x] || d > 8 {
+			return
+		}
+		seen[x] = true
+		switch y := x.(type) {
+		case *ssa.Phi:
+			for _, e := range y.Edges {
+				walk(e, d+1)
+			}
+			return
+		case *ssa.Extract:
+			if cl, ok := y.Tuple.(*ssa.Call); ok {
+				if mc, ok := resolveSpill(cl.Call.Value).(*ssa.MakeClosure); ok {
+					eachInstr(mc.Fn.(*ssa.Function), func(i ssa.Instruction) {
+						if r, ok := i.(*ssa.Return); ok && y.Index < len(r.Results) {
+							walk(r.Results[y.Index], d+1)
+						}
+					})
+					return
+				}
+			}
+		case *ssa.UnOp:
+			if y.Op == token.MUL {
+				var cell *ssa.Alloc
+				switch a := y.X.(type) {
+				case *ssa.Alloc:
+					cell = a
+				case *ssa.FreeVar:
+					cell = cellOfFreeVar(a, 0)
+				}
+				if cell != nil {
+					n := 0
+					var fns []*ssa.Function
+					var under func(f *ssa.Function)
+					under = func(f *ssa.Function) {
+						fns = append(fns, f)
+						for _, g := range f.AnonFuncs {
+							under(g)
+						}
+					}
+					under(cell.Parent())
+					for _, f := range fns {
+						eachInstr(f, func(i ssa.Instruction) {
+							st, ok := i.(*ssa.Store)
+							if !ok {
+								return
+							}
+							same := st.Addr == ssa.Value(cell)
+							if fv, isFV := st.Addr.(*ssa.FreeVar); isFV && cellOfFreeVar(fv, 0) == cell {
+								same = true
+							}
+							if same {
+								n++
+								walk(st.Val, d+1)
+							}
+						})
+					}
+					if n > 0 {
+						return
+					}
+				}
+			}
+		}
+		out = append(out, x)
+	}
+	walk(v, 0)
+	return out
 }
